@@ -168,7 +168,10 @@ class Backend:
         self.log.append((repr(args), repr(sorted(kwargs.items()))))
         if self.fail:
             raise self.exc("planned failure")
-        return ("r", len(self.log))
+        # what the function returns varies: ``None`` and other falsy values are results like any other and must be
+        # cached, counted and served exactly like the rest
+        n = len(self.log)
+        return (("r", n), None, 0, ("r", n), False, "", ())[n % 7]
 
 
 def build(case):
